@@ -935,7 +935,7 @@ static void self_check(void)
 int main(int argc, char **argv)
 {
         mc_init(argc, argv, "C08");
-        mc_set_budget(100, 840);
+        mc_set_budget(300, 840);
         mc_meta("level", "model_checking");
         mc_meta("technique", "explicit-state BFS over caption byte-pair histories fed through vbi_decode() into the real decoder; every fetched page audited against a reference display model written from 47 CFR 15.119 / EIA-608-B");
         build_phases();
